@@ -72,7 +72,13 @@ def float_case(ck, rng, crys, chem, sl, jn, d, with_gf):
            "D": D.tolist(), "Dex": Dex.tolist()}
     if with_gf:
         g = GFcalc.GFCrystalcalc(crys, chem, sl, jn, Nmax=2)
-        g.SetRates(pre, bE, preT, bET)
+        try:
+            g.SetRates(pre, bE, preT, bET)
+        except np.linalg.LinAlgError:
+            # jump vectors generate only a sublattice (interpenetrating copies of the network): outside the Green-function
+            # calculator's domain (see design_notes/C10.md); the interstitial comparison above still stands
+            res["gf_skipped"] = True
+            return res
         res["errgf"] = np.abs(g.D - Dex).max() / scale
         res["Dgf"] = g.D.tolist()
         # the accessor must agree as well
@@ -94,15 +100,8 @@ def run(ck):
     exact_cases = []
     nfloat = 0
     skipped = {"nonpercolating": 0, "irrational-geometry": 0, "construct-failed": 0}
-    for label, crys, chem in gen.pool(rng, ncases, random_frac=0.6):
-        try:
-            net = gen.percolating_network(crys, chem, rng)
-        except Exception as e:
-            skipped["construct-failed"] += 1; continue
-        if net is None:
-            skipped["nonpercolating"] += 1; continue
-        cut, sl, jn = net
-        d = build(crys, chem, sl, jn)
+    from . import tcommon
+    for label, crys, chem, cut, sl, jn, d in tcommon.interstitial_pool(ck, rng, ncases, random_frac=0.6):
         kind = "%dD-%s-W%d-NV%d-%s" % (crys.dim, "inv" if d.omega_invertible else "pinv", len(sl), d.NV, label.split("-")[0])
         # exact tier
         ec = exact_case(ck, rng, label, crys, chem, sl, jn, d)
@@ -115,6 +114,7 @@ def run(ck):
         for rep in range(ck.n(2, 4)):
             fc = float_case(ck, rng, crys, chem, sl, jn, d, with_gf=(rep == 0))
             nfloat += 1
+            if fc.get("gf_skipped"): skipped["gf-sublattice-network"] = skipped.get("gf-sublattice-network", 0) + 1
             key = (label, round(cut, 5), fc["inp"])
             ck.case(key=key, nontrivial=sum(len(t) for t in jn) >= 2, kind="float:" + kind,
                     sample={"tier": "float", "crystal": label, "cutoff": cut, "input": fc["inp"], "D": fc["D"]} if nfloat <= 2 else None)
